@@ -123,3 +123,10 @@ def tracking_index_discipline():
                 sym.check("freed_index_stays_free", True)
         else:
             sym.check("tracked_wire_lookup", t.tracked_wire(i) == m)
+    # finishing the graph: every live index becomes an output, in index order (the same wire may be tracked at several indices)
+    live = [m for m in model if m is not None]
+    t.set_tracked_outputs()
+    outn = t.output_node
+    got = [list(t.hugr.linked_ports(outn.inp(j))) for j in range(len(live))]
+    sym.check("tracked_outputs_are_the_live_wires_in_index_order",
+              got == [[m.out_port()] for m in live] and t.hugr.num_in_ports(outn) == len(live) and len(t.parent_op.outer_signature().output) == len(live))
